@@ -472,7 +472,7 @@ def rule_R7(text, applied, arg=None):
         else:
             acc = f"&{coll}[{i_name}]"
         head = f"let mut {i_name}: usize = 0; while {i_name} < {coll}.len() {{ let {x_name} = {acc};"
-        tail = f" {i_name} += 1; }}"
+        tail = f"; {i_name} += 1; }}"
         text = text[:m.start()] + _keep_newlines(text[m.start():ob + 1], head) + text[ob + 1:cb] + tail + text[cb + 1:]
         cnt += 1
     if cnt:
@@ -617,6 +617,111 @@ def rule_R8first(text, applied):
     return text
 
 
+def rule_R9(text, applied):
+    """sync projection: `async fn` -> `fn`, `E.await` -> `E` (contracts then hold for non-yielding providers only)."""
+    t, a = _sub_masked(text, r"\basync\s+(?=fn\b)", lambda m, s: "")
+    t, b = _sub_masked(t, r"\s*\.\s*await\b", lambda m, s: "")
+    if a + b:
+        applied.append(f"R9x{a + b}")
+    return t
+
+
+def rule_R8position(text, applied):
+    """`X.iter().position(|&s| s == Y)` -> `vposition(&X, Y)` (verified helper: first index holding Y)."""
+    t, n = _sub_masked(text, r"([\w\.]+?)\s*\.\s*iter\(\)\s*\.\s*position\(\s*\|\s*&\s*(\w+)\s*\|\s*\2\s*==\s*([\w\.]+)\s*\)",
+                       lambda m, s: f"vposition(&{m.group(1)}, {m.group(3)})")
+    if n:
+        applied.append(f"R8positionx{n}")
+    return t
+
+
+def rule_R8rotate(text, applied):
+    """`X[A..=B].rotate_right(K)` / `X[A..B].rotate_right(K)` / rotate_left -> `vrotate_right(&mut X, A, B(+1), K)`
+    (trusted helper with the documented behaviour of slice::rotate_* on the sub-slice, including its panics)."""
+    def rep(m, s):
+        hi = m.group(4).strip()
+        hi = f"({hi}) + 1" if m.group(3) == "..=" else hi
+        return f"vrotate_{m.group(5)}(&mut {m.group(1)}, {m.group(2).strip()}, {hi}, {m.group(6).strip()})"
+    t, n = _sub_masked(text, r"([\w\.]+?)\[([^\]\.]+?)(\.\.=?)([^\]]+?)\]\s*\.\s*rotate_(right|left)\(([^\)]+)\)", rep)
+    if n:
+        applied.append(f"R8rotatex{n}")
+    return t
+
+
+def rule_R12refcell(text, applied):
+    """cell erasure for RefCell: `E.borrow_mut()` -> `&mut E`, `E.borrow()` -> `&E` (the wrapper then takes
+    `&mut self`; sequential behaviour identical, run-time borrow panics are not covered)."""
+    t, a = _sub_masked(text, r"((?:\w+\s*\.\s*)*\w+)\s*\.\s*borrow_mut\(\)", lambda m, s: "&mut " + "".join(m.group(1).split()))
+    t, b = _sub_masked(t, r"((?:\w+\s*\.\s*)*\w+)\s*\.\s*borrow\(\)", lambda m, s: "&" + "".join(m.group(1).split()))
+    if a + b:
+        applied.append(f"R12refcellx{a + b}")
+    return t
+
+
+def rule_R8slice(text, applied):
+    """`&X[A..B]` -> `vslice(&X, A, B)` (helper over vstd's slice_subrange; precondition = slice panic condition)."""
+    t, n = _sub_masked(text, r"&\s*([\w\.]+?)\[([^\]\.]+?)\.\.([^\]=]+?)\]", lambda m, s: f"vslice(&{m.group(1)}, {m.group(2).strip()}, {m.group(3).strip()})")
+    if n:
+        applied.append(f"R8slicex{n}")
+    return t
+
+
+def rule_R7iter(text, applied):
+    """`for X in E.iter() {` -> index `while` loop (`let X = &E[i_]`), same lines."""
+    cnt = 0
+    while True:
+        m_text = mask(text)
+        m = re.search(r"\bfor\s+(\w+)\s+in\s+([\w\.]+?)\s*\.\s*iter\(\)\s*\{", m_text)
+        if not m:
+            break
+        x_name, coll = m.group(1), "".join(m.group(2).split())
+        ob = m.end() - 1
+        cb = match_close(m_text, ob)
+        if re.search(r"\bcontinue\b|\bbreak\s*'", m_text[ob + 1:cb]):
+            raise ExtractError("R7iter: loop body contains continue / labelled break")
+        iv = f"i{cnt}_"
+        head = f"let mut {iv}: usize = 0; while {iv} < {coll}.len() {{ let {x_name} = &{coll}[{iv}];"
+        tail = f"; {iv} += 1; }}"
+        text = text[:m.start()] + _keep_newlines(text[m.start():ob + 1], head) + text[ob + 1:cb] + tail + text[cb + 1:]
+        cnt += 1
+    if cnt:
+        applied.append(f"R7iterx{cnt}")
+    return text
+
+
+def rule_R8bitget(text, applied):
+    """`E.get(I).as_deref().copied()` on a BitVec -> `E.vget(I)` (stub method: Some(bit) in range, None beyond)."""
+    t, n = _sub_masked(text, r"\.\s*get\(([^\)]+)\)\s*\.\s*as_deref\(\)\s*\.\s*copied\(\)", lambda m, s: f".vget({m.group(1).strip()})")
+    if n:
+        applied.append(f"R8bitgetx{n}")
+    return t
+
+
+def rule_R8index(text, applied, arg=None):
+    """`&RECV[ID]` on an Arena stand-in -> `RECV.vindex(ID)`; arg = RECV (exact receiver path)."""
+    t, n = _sub_masked(text, r"&\s*" + re.escape(arg) + r"\[([^\]]+)\]", lambda m, s: f"{arg}.vindex({m.group(1).strip()})")
+    if n:
+        applied.append(f"R8index({arg})x{n}")
+    return t
+
+
+def rule_R8collectid(text, applied):
+    """`E.into_iter().collect()` bound to a `let X: Vec<T> = ...` -> `E` (collecting a Vec's own into_iter is
+    the identity; if E is not a Vec<T> the annotated let no longer type-checks => undecided)."""
+    t, n = _sub_masked(text, r"\s*\.\s*into_iter\(\)\s*\.\s*collect\(\)", lambda m, s: "")
+    if n:
+        applied.append(f"R8collectidx{n}")
+    return t
+
+
+def rule_subst(text, applied, arg=None):
+    """literal type substitution OLD=>NEW inside the item (e.g. `Box<dyn Any>` => an opaque type parameter)."""
+    old, new = arg.replace("~", " ").split("=>")
+    n = text.count(old)
+    applied.append(f"subst({old}=>{new})x{n}")
+    return text.replace(old, new)
+
+
 def rule_const(text, applied):
     """`const fn` -> `fn` (const-ness is irrelevant to behaviour)."""
     t, n = _sub_masked(text, r"\bconst\s+(?=fn\b)", lambda m, s: "")
@@ -625,7 +730,9 @@ def rule_const(text, applied):
 
 RULES = {
     "R1": rule_R1, "R2": rule_R2, "R3": rule_R3, "R4": rule_R4, "R5": rule_R5,
-    "R8max": rule_R8max, "R8cmpmax": rule_R8cmpmax, "R8resize_none": rule_R8resize_none, "R13": rule_R13, "R14": rule_R14, "R2set": rule_R2set, "R8first": rule_R8first, "R7": rule_R7, "R10": rule_R10, "R11": rule_R11,
+    "R8max": rule_R8max, "R8cmpmax": rule_R8cmpmax, "R8resize_none": rule_R8resize_none, "R9": rule_R9, "R8position": rule_R8position, "R8rotate": rule_R8rotate, "R12refcell": rule_R12refcell,
+    "R8slice": rule_R8slice, "R7iter": rule_R7iter, "R8bitget": rule_R8bitget, "R8collectid": rule_R8collectid, "R8index": rule_R8index, "subst": rule_subst,
+    "R13": rule_R13, "R14": rule_R14, "R2set": rule_R2set, "R8first": rule_R8first, "R7": rule_R7, "R10": rule_R10, "R11": rule_R11,
 }
 ALWAYS = [rule_vis, rule_tracing, rule_const]
 
